@@ -76,3 +76,25 @@ inductive RestoreAct | stop | save | descend
 deriving DecidableEq, Repr
 
 end Pcfg
+
+namespace Pcfg
+
+/-- comparison of Python ints -/
+def CmpOp.int : CmpOp → Int → Int → Bool
+  | .lt, a, b => decide (a < b)
+  | .le, a, b => decide (a ≤ b)
+  | .gt, a, b => decide (b < a)
+  | .ge, a, b => decide (b ≤ a)
+  | .eq, a, b => a == b
+  | .ne, a, b => a != b
+
+/-- `==` / `!=` on one-character strings -/
+def CmpOp.chr : CmpOp → Char → Char → Bool
+  | .eq, a, b => a == b
+  | .ne, a, b => a != b
+  | .lt, a, b => decide (a.toNat < b.toNat)
+  | .le, a, b => decide (a.toNat ≤ b.toNat)
+  | .gt, a, b => decide (b.toNat < a.toNat)
+  | .ge, a, b => decide (b.toNat ≤ a.toNat)
+
+end Pcfg
